@@ -14,6 +14,8 @@ const (
 )
 
 func RegisterTunnel(t *Tunnel, p *Processor) {
+	verifHook("reg.begin", t)
+	defer verifHook("reg.end", t)
 	if Connections == nil {
 		Connections = make(map[string]*Monitor)
 	}
@@ -25,6 +27,8 @@ func RegisterTunnel(t *Tunnel, p *Processor) {
 }
 
 func RemoveTunnel(t *Tunnel) {
+	verifHook("unreg.begin", t)
+	defer verifHook("unreg.end", t)
 	delete(Connections, t.Id)
 }
 
